@@ -232,7 +232,7 @@ def build(tier, repo):
     r5 = chk.rule("C01-R5", "block-offset discipline in conelp/lp/socp/sdp: access extent at an offset <= stride, widest access fills the block",
                   "blocks of s, z, G, h are addressed consistently (wrapper pieces, symmetrisation, start points)")
     rc.offsets_rule(r5, w, [("coneprog", "conelp"), ("coneprog", "lp"), ("coneprog", "socp"), ("coneprog", "sdp")])
-    r5.require(60)
+    r5.require(45)
     r6 = chk.rule("C01-R6", "lp/socp/sdp incl. external-solver branches: names/attributes resolve, reported fields definitely assigned",
                   "external solver option returns well-formed results")
     for q in ("lp", "socp", "sdp"):
